@@ -19,48 +19,47 @@ namespace Spdx.ConstsPin
 /-- `readOperator`: the operator list **in its order** is the model's `opTable`; the remaining two literals are the
     `+` / preceding-space look-behind -/
 theorem readOperator_literals :
-    beqList (litsOf "expressionStream.readOperator") (opTable.map (·.1) ++ [bPlus, [32]]) = true := by decide +kernel
+    fnHasLits "expressionStream.readOperator" (opTable.map (·.1) ++ [bPlus, [32]]) = true := by decide +kernel
 /-- … which reads `expression[index-2:index-1]` after `index > 1` -/
-theorem readOperator_ints : beqNats (intsOf "expressionStream.readOperator") [0, 0, 1, 2, 1] = true := by decide +kernel
-theorem readDocumentRef_literals : beqList (litsOf "expressionStream.readDocumentRef") [docRefPrefix] = true := by decide +kernel
-theorem readLicenseRef_literals : beqList (litsOf "expressionStream.readLicenseRef") [licRefPrefix] = true := by decide +kernel
+theorem readOperator_ints : fnHasInts "expressionStream.readOperator" (opTable.map (·.1) ++ [bPlus, [32]]) [0, 0, 1, 2, 1] = true := by decide +kernel
+theorem readDocumentRef_literals : fnHasLits "expressionStream.readDocumentRef" [docRefPrefix] = true := by decide +kernel
+theorem readLicenseRef_literals : fnHasLits "expressionStream.readLicenseRef" [licRefPrefix] = true := by decide +kernel
 /-- the id class `[A-Za-z0-9-.]+` is what `isIdChar` decides … -/
-theorem readID_literals : beqList (litsOf "expressionStream.readID") [str "[A-Za-z0-9-.]+", []] = true := by decide +kernel
+theorem readID_literals : fnHasLits "expressionStream.readID" [str "[A-Za-z0-9-.]+", []] = true := by decide +kernel
 theorem isIdChar_is_the_class :
     (List.range 256).all (fun c => isIdChar c ==
       ((str "ABCDEFGHIJKLMNOPQRSTUVWXYZabcdefghijklmnopqrstuvwxyz0123456789-.").any (Nat.beq c))) = true := by decide +kernel
 /-- … and whitespace is `[ ]*`: the space character only -/
-theorem skipWhitespace_literals : beqList (litsOf "expressionStream.skipWhitespace") [str "[ ]*"] = true := by decide +kernel
+theorem skipWhitespace_literals : fnHasLits "expressionStream.skipWhitespace" [str "[ ]*"] = true := by decide +kernel
 /-- `normalizeLicense`: `-only`, `+` → `-or-later`, `-or-later` → `+` rewrite, with the slice offsets 5 and 9 -/
 theorem normalizeLicense_literals :
-    beqList (litsOf "expressionStream.normalizeLicense")
-      [sufOnly, bPlus, sufOrLater, sufOrLater, sufOrLater, bPlus, bPlus, sufOrLater] = true := by decide +kernel
+    fnHasLits "expressionStream.normalizeLicense" [sufOnly, bPlus, sufOrLater, sufOrLater, sufOrLater, bPlus, bPlus, sufOrLater] = true := by decide +kernel
 theorem normalizeLicense_ints :
-    beqNats (intsOf "expressionStream.normalizeLicense") [0, sufOnly.length, 1, 0, 0, sufOrLater.length, 0] = true := by
+    fnHasInts "expressionStream.normalizeLicense" [sufOnly, bPlus, sufOrLater, sufOrLater, sufOrLater, bPlus, bPlus, sufOrLater] [0, sufOnly.length, 1, 0, 0, sufOrLater.length, 0] = true := by
   decide +kernel
 
 /-! ### parser (C05) -/
-theorem parseLicense_literals : beqList (litsOf "tokenStream.parseLicense") [[], sufOrLater, bPlus] = true := by decide +kernel
-theorem parseWith_literals : beqList (litsOf "tokenStream.parseWith") [str "WITH"] = true := by decide +kernel
-theorem parseLicenseRef_literals : beqList (litsOf "tokenStream.parseLicenseRef") [[], [], bColon] = true := by decide +kernel
+theorem parseLicense_literals : fnHasLits "tokenStream.parseLicense" [[], sufOrLater, bPlus] = true := by decide +kernel
+theorem parseWith_literals : fnHasLits "tokenStream.parseWith" [str "WITH"] = true := by decide +kernel
+theorem parseLicenseRef_literals : fnHasLits "tokenStream.parseLicenseRef" [[], [], bColon] = true := by decide +kernel
 theorem parseParen_literals :
-    beqList (litsOf "tokenStream.parseParenthesizedExpression") [[40], [41]] = true := by decide +kernel
-theorem parseAnd_literals : beqList (litsOf "tokenStream.parseAnd") [str "AND", str "and"] = true := by decide +kernel
-theorem parseExpression_literals : beqList (litsOf "tokenStream.parseExpression") [str "OR"] = true := by decide +kernel
+    fnHasLits "tokenStream.parseParenthesizedExpression" [[40], [41]] = true := by decide +kernel
+theorem parseAnd_literals : fnHasLits "tokenStream.parseAnd" [str "AND", str "and"] = true := by decide +kernel
+theorem parseExpression_literals : fnHasLits "tokenStream.parseExpression" [str "OR"] = true := by decide +kernel
 /-- the three tokens that may not start an atom -/
-theorem parseAtom_literals : beqList (litsOf "tokenStream.parseAtom") [[41], str "OR", str "AND"] = true := by decide +kernel
-theorem isAnd_literals : beqList (litsOf "node.isAndExpression") [str "and"] = true := by decide +kernel
-theorem isOr_literals : beqList (litsOf "node.isOrExpression") [str "or"] = true := by decide +kernel
+theorem parseAtom_literals : fnHasLits "tokenStream.parseAtom" [[41], str "OR", str "AND"] = true := by decide +kernel
+theorem isAnd_literals : fnHasLits "node.isAndExpression" [str "and"] = true := by decide +kernel
+theorem isOr_literals : fnHasLits "node.isOrExpression" [str "or"] = true := by decide +kernel
 
 /-! ### matching and rendering (C02, C06, C08) -/
-theorem simplifyLicense_literals : beqList (litsOf "simplifyLicense") [sufOrLater] = true := by decide +kernel
+theorem simplifyLicense_literals : fnHasLits "simplifyLicense" [sufOrLater] = true := by decide +kernel
 /-- canonical term text: `id [+] [ WITH exc]`, `[DocumentRef-d:]LicenseRef-r` -/
 theorem reconstructed_literals :
-    beqList (litsOf "node.reconstructedLicenseString") [bPlus, bWith, licRefPrefix, docRefPrefix, bColon] = true := by
+    fnHasLits "node.reconstructedLicenseString" [bPlus, bWith, licRefPrefix, docRefPrefix, bColon] = true := by
   decide +kernel
 
 /-! ### expansion (C01, C10, C14) -/
 /-- `appendTerms` iff `len(left) > 1 || len(right) > 1` -/
-theorem expandAnd_ints : beqNats (intsOf "node.expandAnd") [1, 1] = true := by decide +kernel
+theorem expandAnd_ints : fnHasInts "node.expandAnd" [] [1, 1] = true := by decide +kernel
 
 end Spdx.ConstsPin
